@@ -6,8 +6,11 @@ pub const ALL: &[(&str, H)] = &[
     ("h_domain::domain_prefix_min_degree", crate::h_domain::domain_prefix_min_degree),
     ("h_domain::domain_prefix_any_degree", crate::h_domain::domain_prefix_any_degree),
     ("h_arch::configure_nr_pow2range_any", crate::h_arch::configure_nr_pow2range_any),
-    ("h_arch::configure_nr_pow2range_in_range", crate::h_arch::configure_nr_pow2range_in_range),
+    ("h_arch::pow2range_configure_column_count", crate::h_arch::pow2range_configure_column_count),
     ("h_arch::arch_read_total", crate::h_arch::arch_read_total),
+    ("h_batch::batch_verify_lengths", crate::h_batch::batch_verify_lengths),
+    ("h_batch::batch_verify_lengths_nonempty", crate::h_batch::batch_verify_lengths_nonempty),
+    ("h_batch::verify_pins_public_input_count", crate::h_batch::verify_pins_public_input_count),
 ];
 pub fn lookup(name: &str) -> Option<H> {
     ALL.iter().find(|(n, _)| *n == name).map(|(_, f)| *f)
